@@ -91,6 +91,9 @@ def main():
                     meta = json.load(open(mp))
                 except Exception:
                     meta = {}
+            prev = meta.get("check_run")
+            if prev and not prev.get("caught") and "first_check_run" not in meta:
+                meta["first_check_run"] = dict(prev, note="missed by the check as first built; the check was then strengthened (see DESIGN.md 10.4)")
             meta.update({"property": pid, "validated": {k: out[k] for k in ("applies", "builds", "demo_passes_unchanged", "demo_fails_changed", "tests_pass", "tests")},
                          "check_run": {"cmd": f"VERIF_REPO=<worktree with patch applied> ./check {pid} --tier {tier}",
                                        "caught": out["caught"], "lines": out["check_lines"], "first_replay": out.get("first_replay")}})
